@@ -39,6 +39,9 @@ pub struct WalkCfg {
     /// the application's inbound service (publish service of servers, protocol service of
     /// clients) may be "not ready" for a while (`Service::ready` pending)
     pub allow_not_ready: bool,
+    /// exactly-once sends with caller-chosen ids 1 and 2 among the senders (a send may then fail
+    /// locally with "packet id in use"; the exchange that holds the id must not be touched)
+    pub q2_explicit_ids: bool,
     /// woken-but-not-yet-polled hazards: after an acknowledgement the next action may follow
     /// without any scheduler round in between
     /// probability (percent) of `rounds(k)` instead of full quiescence after an action
@@ -229,11 +232,19 @@ pub enum SenderKind {
     TooBig,
     Q1,
     Q2,
+    /// exactly-once send with a caller-chosen packet id (collisions with exchanges in progress on purpose)
+    Q2Pid(u16),
     LoopQ1,
     ReadyThenQ1,
     Ready,
     Subscribe,
     Unsubscribe,
+}
+
+impl SenderKind {
+    pub fn is_q2(self) -> bool {
+        matches!(self, SenderKind::Q2 | SenderKind::Q2Pid(_))
+    }
 }
 
 pub struct Sender {
@@ -287,15 +298,16 @@ fn make_sender(app: &Rc<App>, sink: &Sink, kind: SenderKind, manual_release: boo
             pl.resize(2_000, b'#');
             sink.send_qos1(&PubSpec::new("w/big", pl))
         }
-        SenderKind::Q2 => {
+        SenderKind::Q2 | SenderKind::Q2Pid(_) => {
             let ch = Chan::new();
             if !manual_release {
                 ch.push(ReceiptCmd::Release);
             }
             receipt = Some(ch.clone());
             let app2 = app.clone();
+            let pid = if let SenderKind::Q2Pid(p) = kind { Some(p) } else { None };
             sink.send_qos2(
-                &PubSpec::new("w/q2", payload_for(id, 0)),
+                &PubSpec::new("w/q2", payload_for(id, 0)).pid(pid),
                 ch,
                 Rc::new(move |phase, res| {
                     app2.log(Ev::SinkRet { op: id, n: if phase == "received" { 1 } else { 2 }, res });
@@ -367,6 +379,10 @@ pub async fn walk(cfg: &WalkCfg, ch: &mut dyn Choose) -> WalkOutcome {
     if cfg.allow_qos2 {
         kinds.push(SenderKind::Q2);
     }
+    if cfg.q2_explicit_ids {
+        kinds.push(SenderKind::Q2Pid(1));
+        kinds.push(SenderKind::Q2Pid(2));
+    }
     if cfg.allow_loops {
         kinds.push(SenderKind::LoopQ1);
         kinds.push(SenderKind::LoopQ1);
@@ -430,6 +446,9 @@ pub async fn walk(cfg: &WalkCfg, ch: &mut dyn Choose) -> WalkOutcome {
             LateStart(usize),
             SvcWait,
             SvcReady,
+            /// the peer answers the oldest packet - the PUBREC of sender i - and the application
+            /// drops that send future a few scheduler rounds later (received, not yet polled)
+            AckThenCancel(usize),
         }
         let mut acts: Vec<Act> = Vec::new();
         if cfg.enumerate {
@@ -471,12 +490,20 @@ pub async fn walk(cfg: &WalkCfg, ch: &mut dyn Choose) -> WalkOutcome {
             if !s.op.started() && !s.cancelled {
                 acts.push(Act::LateStart(i));
             }
-            if cfg.manual_release && s.kind == SenderKind::Q2 && !s.receipt_decided && !s.cancelled {
+            if cfg.manual_release && s.kind.is_q2() && !s.receipt_decided && !s.cancelled {
                 // only meaningful once PUBREC was delivered (phase "received" logged)
                 let received = app.count(|e| matches!(e, Ev::SinkRet { op, n: 1, .. } if *op == s.op.id)) > 0;
                 if received {
                     acts.push(Act::Release(i));
                     acts.push(Act::DropReceipt(i));
+                }
+            }
+        }
+        if cfg.allow_cancel && !cfg.enumerate && !backpressure {
+            if let Some(Pending::Pub2(pid)) = pm.recv.front() {
+                if let Some(i) = senders.iter().position(|s| s.kind.is_q2() && s.op.started() && !s.op.is_done() && !s.cancelled && pm.pid_of_payload.get(&payload_for(s.op.id, 0)) == Some(pid)) {
+                    acts.push(Act::AckThenCancel(i));
+                    acts.push(Act::AckThenCancel(i));
                 }
             }
         }
@@ -538,6 +565,20 @@ pub async fn walk(cfg: &WalkCfg, ch: &mut dyn Choose) -> WalkOutcome {
                 c.peer.unlimited();
                 backpressure = false;
                 stat!("backpressure_off");
+            }
+            Act::AckThenCancel(i) => {
+                if let Some(p) = pm.next_ack() {
+                    let seq = app.log_peer(&p);
+                    pm.note_ack(seq, &p);
+                    c.peer.write_part(&crate::refcodec::encode(c.peer.ver, &p).unwrap());
+                    stat!("ack_writes");
+                }
+                rt::rounds(ch.pick(5)).await;
+                if senders[i].op.cancel() {
+                    senders[i].cancelled = true;
+                    stat!("cancellations");
+                    stat!("cancellations_right_after_pubrec");
+                }
             }
             Act::SvcWait => {
                 app.set_ready(svc, crate::app::ReadyMode::Wait);
@@ -651,8 +692,9 @@ pub async fn walk(cfg: &WalkCfg, ch: &mut dyn Choose) -> WalkOutcome {
             } else if let Some(r) = s.op.result() {
                 let must_fail = matches!(s.kind, SenderKind::BadTopic | SenderKind::TooBig);
                 // with caller-chosen ids in play an automatic id may legitimately collide with one of them
-                let may_fail = cfg.allow_local_failures
-                    && (matches!(r, SinkRes::ErrIdInUse(_) | SinkRes::ErrStreamingCancelled) || matches!(&r, SinkRes::ErrEncode(e) if e == "ExpectPayload"));
+                let may_fail = (cfg.allow_local_failures
+                    && (matches!(r, SinkRes::ErrIdInUse(_) | SinkRes::ErrStreamingCancelled) || matches!(&r, SinkRes::ErrEncode(e) if e == "ExpectPayload")))
+                    || (cfg.q2_explicit_ids && matches!(r, SinkRes::ErrIdInUse(_)));
                 if must_fail {
                     if matches!(r, SinkRes::ErrEncode(_) | SinkRes::ErrIdInUse(_)) {
                         *out.stats.entry("local_failures_as_expected").or_insert(0) += 1;
@@ -694,7 +736,7 @@ pub async fn walk(cfg: &WalkCfg, ch: &mut dyn Choose) -> WalkOutcome {
                         }
                     }
                 }
-                SenderKind::Q2 => {
+                SenderKind::Q2 | SenderKind::Q2Pid(_) => {
                     let Some(pid) = pm.pid_of_payload.get(&payload_for(id, 0)).copied() else { continue };
                     let got_receipt = seq_of(&|e| matches!(e, Ev::SinkRet { op, n: 1, .. } if *op == id));
                     if let Some(r) = got_receipt {
@@ -704,10 +746,22 @@ pub async fn walk(cfg: &WalkCfg, ch: &mut dyn Choose) -> WalkOutcome {
                         }
                         // exactly one PUBREL for this id (released or dropped), if the connection stayed healthy
                         let rels = log.iter().filter(|(_, e)| matches!(e, Ev::Wire(R::PubRel { pid: p, .. }) if *p == pid)).count();
-                        if stops.is_empty() && rels != 1 {
+                        if cfg.q2_explicit_ids {
+                            // identifiers are reused by later exchanges: judged per identifier below
+                        } else if stops.is_empty() && rels != 1 {
                             out.violations.push(Violated { class: format!("{rels} PUBREL packets written for one obtained receipt"), what: format!("op {id} pid {pid}") });
                         } else {
                             *out.stats.entry("receipts_with_exactly_one_pubrel").or_insert(0) += 1;
+                        }
+                    } else if s.cancelled && pm.ack_seq("PUBREC", pid).is_some() {
+                        // the send future was dropped around the arrival of its PUBREC (before the
+                        // application saw the receipt): the exchange is completed all the same
+                        let rels = log.iter().filter(|(_, e)| matches!(e, Ev::Wire(R::PubRel { pid: p, .. }) if *p == pid)).count();
+                        if cfg.q2_explicit_ids {
+                        } else if stops.is_empty() && rels != 1 {
+                            out.violations.push(Violated { class: format!("{rels} PUBREL packets written for an exactly-once send that was dropped after its PUBREC had arrived"), what: format!("op {id} pid {pid}") });
+                        } else {
+                            *out.stats.entry("dropped_sends_completed_with_one_pubrel").or_insert(0) += 1;
                         }
                     }
                     if let Some(done) = seq_of(&|e| matches!(e, Ev::SinkRet { op, n: 0, res: SinkRes::Ok } if *op == id)) {
@@ -718,6 +772,23 @@ pub async fn walk(cfg: &WalkCfg, ch: &mut dyn Choose) -> WalkOutcome {
                     }
                 }
                 _ => {}
+            }
+        }
+    }
+    // with caller-chosen identifiers an identifier serves several exchanges one after the other:
+    // per identifier, every exchange whose PUBREC the peer sent gets exactly one PUBREL
+    if cfg.q2_explicit_ids && stops.is_empty() {
+        let log = app.snapshot();
+        let mut pids: Vec<u16> = log.iter().filter_map(|(_, e)| if let Ev::Wire(R::Publish { qos: 2, pid: Some(p), .. }) = e { Some(*p) } else { None }).collect();
+        pids.sort_unstable();
+        pids.dedup();
+        for pid in pids {
+            let recs = pm.acks_sent.iter().filter(|(_, k, p)| k == "PUBREC" && *p == pid).count();
+            let rels = log.iter().filter(|(_, e)| matches!(e, Ev::Wire(R::PubRel { pid: p, .. }) if *p == pid)).count();
+            if rels != recs {
+                out.violations.push(Violated { class: format!("{rels} PUBREL packets written for {recs} exactly-once exchanges that reached PUBREC with one packet identifier"), what: format!("pid {pid}") });
+            } else {
+                *out.stats.entry("receipts_with_exactly_one_pubrel").or_insert(0) += recs as u64;
             }
         }
     }
